@@ -509,7 +509,7 @@ class Match(_Regex):
         for _ in range(self.n(tier, 1500, 100000, scale)):
             dev = tier == "thorough" and rng.random() < 0.3
             p, f = r_regexp(rng, 2, dev)
-            if len(p) > 120 or "'" in p:
+            if len(p) > 120 or "'" in p or (tier != "thorough" and expected_dev(p)):
                 continue
             ss = set()
             for _ in range(6):
